@@ -30,6 +30,7 @@ import Hdl21Model.Lemmas.InstBundle
 import Hdl21Model.Lemmas.ArrayPass
 import Hdl21Model.Lemmas.BundleConn
 import Hdl21Model.Lemmas.ModulePipe
+import Hdl21Model.Props.C06
 namespace Hdl21.Props.C01
 open Hdl21 Hdl21.Pkg
 
@@ -592,5 +593,47 @@ example : (pipeline 40 (fun _ => some [("p", 2), ("n", 1)])
     some [[("p", [("t", 0), ("s", 1)]), ("n", [("a", 0)])], [("n", [("t", 1)]), ("p", [("s", 0), ("s", 1)])]] := by
   decide +kernel
 end Pipeline
+
+
+/-! ## … and for every module of an F1 design -/
+section Hierarchy
+open Hdl21.RoundTrip Hdl21.ExportWF Hdl21.ModulePipe Hdl21.Props.C06
+
+/-- what `module_connections_preserved` says of one module and its exported counterpart -/
+def ModKept (h : HModule) (p : PModule) : Prop :=
+  p.name = h.name ∧ p.signals = sigList h ∧ All2 (InstKept (sigList h)) h.instances p.instances
+
+/-- **C01 for a whole F1 design**: when the modules of a design go through the composed pass list and the exporter, children
+    first (`pipelineDesign`), the package holds one module per module of the design, in order, and in each of them every
+    instance — of a leaf or of a module exported before — has on every port, bit *i* for bit *i*, the signal bits the designer's
+    expression denotes.  A child's port *is* its signal of that name (same bits, same order: `p.signals = sigList h`), so the nets
+    of the hierarchy — glued at ports, bit to bit — are the nets the designer's connections induce, level by level. -/
+theorem design_connections_preserved (fuel : Nat) (exts : List PExt) (hext : ∀ e ∈ exts, (e.ports.map (·.1)).Nodup) :
+    ∀ (hs : List HModule) (acc mods : List PModule), (∀ h ∈ hs, ModOK₀ h) → (∀ m ∈ acc, (m.ports.map (·.1)).Nodup) →
+      pipelineDesign fuel exts hs acc = .ok mods → ∃ new, mods = acc ++ new ∧ All2 ModKept hs new
+  | [], acc, mods, _, _, h => by
+    unfold pipelineDesign at h; injection h with h; subst h
+    exact ⟨[], by simp, .nil⟩
+  | h :: rest, acc, mods, hm, hacc, hp => by
+    unfold pipelineDesign at hp
+    cases h1 : pipeline fuel (targetPorts ⟨[], exts⟩ acc) h with
+    | error x => simp [h1] at hp
+    | ok p =>
+      simp only [h1] at hp
+      obtain ⟨m1, m2, m3, m4, m5⟩ := hm h (List.mem_cons_self ..)
+      have hmod : ModOK (targetPorts ⟨[], exts⟩ acc) h := ⟨m1, m2, m3, m4, m5, ctx_ports_distinct exts acc hacc hext⟩
+      have hk := module_connections_preserved fuel _ h p hmod h1
+      have hpn : (p.ports.map (·.1)).Nodup := by
+        rw [pipeline_ports fuel _ h p h1]
+        rw [List.map_append] at m1
+        exact (List.nodup_append.mp m1).2.1
+      obtain ⟨new, hnew, hrest⟩ := design_connections_preserved fuel exts hext rest (acc ++ [p]) mods
+        (fun x hx => hm x (List.mem_cons_of_mem _ hx))
+        (fun m hmem => by
+          rcases List.mem_append.mp hmem with hm' | hm'
+          · exact hacc m hm'
+          · simp at hm'; subst hm'; exact hpn) hp
+      exact ⟨p :: new, by rw [hnew]; simp, .cons hk hrest⟩
+end Hierarchy
 
 end Hdl21.Props.C01
